@@ -164,26 +164,39 @@ pub fn abs_decode<T: Borrow<[u8]>, R: Reader<T>>(attribute_type: u16, reader: &m
 }
 
 // ---------------------------------------------------------------------------
-// try_read_greedy as an arbitrary list of at most one result
+// try_read_greedy as an arbitrary list of GREEDY_LEN results
 
+pub const GREEDY_MAX: usize = 4;
 pub static mut GREEDY_CALLS: usize = 0;
 pub static mut GREEDY_REGION: usize = 0;
-/// 0 = empty list, 1 = [Ok(MessageType)], 2 = [Ok(other)], 3 = [Err]
-pub static mut GREEDY_SHAPE: u8 = 0;
+/// Length of the list `abs_greedy` returns: a *constant* chosen by the harness
+/// (a list whose length is itself nondeterministic does not keep a constant
+/// length in symbolic execution and the control layer's loops over it explode).
+pub static mut GREEDY_LEN: usize = 0;
+/// Kind chosen for each element (nondeterministic per element).
+pub static mut GREEDY_KINDS: [AbsKind; GREEDY_MAX] = [AbsKind::Err; GREEDY_MAX];
 
 #[cfg(kani)]
 pub fn abs_greedy<T: Borrow<[u8]>, R: Reader<T>>(reader: &mut R) -> Vec<Result<AVP, DecodeError>> {
     unsafe {
         GREEDY_CALLS += 1;
         GREEDY_REGION = reader.len();
-        let c: u8 = kani::any();
-        kani::assume(c < 4);
-        GREEDY_SHAPE = c;
-        match c {
-            0 => Vec::new(),
-            1 => vec![abs_value(0, AbsKind::OkMessageType)],
-            2 => vec![abs_value(0, AbsKind::OkOther)],
-            _ => vec![abs_value(0, AbsKind::Err)],
+        let k = GREEDY_LEN;
+        let mut v = Vec::with_capacity(k);
+        let mut i = 0;
+        while i < k {
+            let c: u8 = kani::any();
+            let kind = if c == 0 {
+                AbsKind::OkMessageType
+            } else if c == 1 {
+                AbsKind::OkOther
+            } else {
+                AbsKind::Err
+            };
+            GREEDY_KINDS[i] = kind;
+            v.push(abs_value(i, kind));
+            i += 1;
         }
+        v
     }
 }
